@@ -311,6 +311,7 @@ fn unop(op: &str, args: &[&str]) -> String {
         "nt_is_positive" => show_bool(num_traits::Signed::is_positive(&dec(args[0]))),
         "nt_is_negative" => show_bool(num_traits::Signed::is_negative(&dec(args[0]))),
         "default_mode" => format!("MODE {:?}", RoundingMode::default()),
+        "sched" => sched(args),
         #[cfg(fpdec_verif)]
         "h_mul" => { let (h, l) = fpdec_core::verif_hooks::u128_mul_u128(args[0].parse().unwrap(), args[1].parse().unwrap()); format!("PAIRU {} {}", h, l) }
         #[cfg(fpdec_verif)]
@@ -323,6 +324,43 @@ fn unop(op: &str, args: &[&str]) -> String {
         "h_idiv" => { let (h, l, r) = fpdec_core::verif_hooks::u256_idiv_u128(args[0].parse().unwrap(), args[1].parse().unwrap(), args[2].parse().unwrap()); format!("TRIPLE {} {} {}", h, l, r) }
         _ => "BADOP".to_string(),
     }
+}
+
+// run a schedule over real threads, sequenced by channels: tokens "<t>s<m>" (thread t sets mode m), "<t>g" (thread t reads
+// the default mode), "<t>r<coeff>" (thread t rounds Decimal(coeff, 1) to 0 digits); prints the observations in order
+fn sched(args: &[&str]) -> String {
+    use std::sync::mpsc;
+    let n_threads = 3;
+    let mut txs = Vec::new();
+    let (rtx, rrx) = mpsc::channel::<String>();
+    let mut handles = Vec::new();
+    for _ in 0..n_threads {
+        let (tx, rx) = mpsc::channel::<String>();
+        let rtx = rtx.clone();
+        txs.push(tx);
+        handles.push(std::thread::spawn(move || {
+            for cmd in rx {
+                let kind = cmd.as_bytes()[0] as char;
+                let rest = &cmd[1..];
+                let out = match kind {
+                    's' => { RoundingMode::set_default(mode_of(rest.parse().unwrap())); "ok".to_string() }
+                    'g' => format!("{:?}", RoundingMode::default()),
+                    'r' => { let d = Decimal::new_raw(rest.parse().unwrap(), 1); format!("{}", d.round(0).coefficient()) }
+                    _ => "?".to_string(),
+                };
+                rtx.send(out).unwrap();
+            }
+        }));
+    }
+    let mut outs = Vec::new();
+    for a in args {
+        let t: usize = a[0..1].parse().unwrap();
+        txs[t].send(a[1..].to_string()).unwrap();
+        outs.push(rrx.recv().unwrap());
+    }
+    drop(txs);
+    for h in handles { let _ = h.join(); }
+    format!("SCHED {}", outs.join(" "))
 }
 
 fn fmt_dyn(d: Decimal, prec: Option<usize>, width: Option<usize>, flags: &str) -> String {
